@@ -13,7 +13,7 @@ import re
 
 from ..engine import rule
 from ..model import Undecided
-from ..cfg import dotted, call_name, is_call, simple_name, unparse, const_value, contains, enclosing
+from ..cfg import same, dotted, call_name, is_call, simple_name, unparse, const_value, contains, enclosing
 from ..flow import Defs, depends
 from ..decide import table, ret_kind
 from ..util import keyword, returns_of, calls_in, inside, order_key, str_variants, HOLE
@@ -145,7 +145,7 @@ def c12a(ctx):
     # level_location itself: join(cache_dir, dimensions_part(dimensions), level)
     ll = ctx.fn(PATH + ':level_location')
     defs = Defs(ll.node)
-    ok = all(is_call(r.value, 'os.path.join') and len(r.value.args) == 3 and unparse(r.value.args[0]) == 'cache_dir' and
+    ok = all(is_call(r.value, 'os.path.join') and len(r.value.args) == 3 and same(r.value.args[0], 'cache_dir') and
              depends(r.value.args[1], lambda x: is_call(x, 'dimensions_part'), defs) for r in returns_of(ll.node))
     ctx.check(ok, 'level_location:form', 'level_location = cache_dir / dimensions_part(dimensions) / level', ll)
     # compact: one level directory format
@@ -155,7 +155,7 @@ def c12a(ctx):
     def level_fmt(fn):
         out = []
         for x in fn.walk():
-            if is_call(x, 'os.path.join') and len(x.args) >= 2 and unparse(x.args[0]) == 'self.cache_dir':
+            if is_call(x, 'os.path.join') and len(x.args) >= 2 and same(x.args[0], 'self.cache_dir'):
                 c = x.args[1]
                 if isinstance(c, ast.BinOp) and isinstance(c.op, ast.Mod) and isinstance(c.left, ast.Constant):
                     out.append(c.left.value)
@@ -167,7 +167,7 @@ def c12a(ctx):
               fail='compact cache stores bundles in %s but removes level directory %s' % (fa, fb))
     rm = [x for x in b.walk() if is_call(x, 'shutil.rmtree')]
     g = b.cfg
-    ok = bool(rm) and all(g.guarded(g.node_for(x), lambda at: at.op is None and unparse(at.expr) == 'remove_all', True) for x in rm)
+    ok = bool(rm) and all(g.guarded(g.node_for(x), lambda at: at.op is None and same(at.expr, 'remove_all'), True) for x in rm)
     ctx.check(ok, 'compact:rmtree-only-remove-all', 'the level directory is removed only for remove_all', b)
 
 
@@ -220,13 +220,13 @@ def c12b(ctx):
                   fail='the age is taken with stat/getmtime: a link to an old single-colour tile looks old although the tile was just written')
         # the file name handed over is a join of dirpath from os.walk(directory)
         arg = h.args[0] if h.args else None
-        ok = arg is not None and depends(arg, lambda x: is_call(x, 'os.path.join') and x.args and unparse(x.args[0]) == 'dirpath', defs)
+        ok = arg is not None and depends(arg, lambda x: is_call(x, 'os.path.join') and x.args and same(x.args[0], 'dirpath'), defs)
         walks = [x for x in fn.walk() if is_call(x, 'os.walk')]
-        ok = ok and bool(walks) and all(unparse(w.args[0]) == 'directory' for w in walks)
+        ok = ok and bool(walks) and all(same(w.args[0], 'directory') for w in walks)
         ctx.check(ok, 'cleanup_directory:below-directory', 'only paths below `directory` (os.walk(directory), join(dirpath, name)) are produced', fn, h)
     rm = g.find(lambda x: is_call(x, 'shutil.rmtree'))
     for n, x in rm:
-        ok = g.guarded(n, lambda at: at.op is None and unparse(at.expr) == 'remove_all', True) and unparse(x.args[0]) == 'directory'
+        ok = g.guarded(n, lambda at: at.op is None and same(at.expr, 'remove_all'), True) and same(x.args[0], 'directory')
         ctx.check(ok, 'cleanup_directory:rmtree-only-remove-all', 'the whole directory is removed only for remove_all', fn, x)
     fh = [v for v, sel in defs.of('file_handler')]
     ok = all(unparse(v) in ('os.remove', 'os.unlink') for v in fh)
@@ -256,9 +256,9 @@ def c12c(ctx):
                           'DELETE is bound to `zoom_level = ?` with the level parameter', fn, c,
                           fail='level clean-up DELETE is not bound to exactly the requested level: %s' % ' '.join(s.split())[:90])
                 node = g.node_for(c)
-                if not g.guarded(node, lambda at: at.op is None and unparse(at.expr) == 'remove_all', True):
+                if not g.guarded(node, lambda at: at.op is None and same(at.expr, 'remove_all'), True):
                     ok = bool(re.search(r'last_modified\s*<\s*datetime\(\?', where))
-                    ok = ok and isinstance(args, ast.Tuple) and len(args.elts) == 2 and unparse(args.elts[1]) == 'timestamp'
+                    ok = ok and isinstance(args, ast.Tuple) and len(args.elts) == 2 and same(args.elts[1], 'timestamp')
                     ctx.check(ok, '%s.remove_level_tiles_before:delete%d-age-bound' % (cname, i),
                               'without remove_all the DELETE is also bound to last_modified < timestamp', fn, c,
                               fail='the timestamp form of the level DELETE does not filter by last_modified < timestamp')
@@ -268,12 +268,12 @@ def c12c(ctx):
         g = fn.cfg
         defs = Defs(fn.node)
         lc = [v for v, sel in defs.of('level_cache')]
-        ok = bool(lc) and all(is_call(v, 'self._get_level') and unparse(v.args[0]) == 'level' for v in lc)
+        ok = bool(lc) and all(is_call(v, 'self._get_level') and same(v.args[0], 'level') for v in lc)
         ctx.check(ok, '%s.remove_level_tiles_before:level-cache' % cname, 'operates on self._get_level(level)', fn)
         for n, x in g.find(lambda x: is_call(x, 'os.unlink', 'os.remove')):
             a = x.args[0]
-            ok = unparse(a) == 'level_cache.' + attr or depends(a, lambda y: unparse(y) == 'level_cache.' + attr, defs)
-            ok = ok and g.guarded(n, lambda at: at.op is None and unparse(at.expr) == 'remove_all', True)
+            ok = same(a, 'level_cache.' + attr) or depends(a, lambda y: unparse(y) == 'level_cache.' + attr, defs)
+            ok = ok and g.guarded(n, lambda at: at.op is None and same(at.expr, 'remove_all'), True)
             ctx.check(ok, '%s.remove_level_tiles_before:unlink-own-file' % cname,
                       'only the level\'s own database file (and its journal files) is unlinked, and only for remove_all', fn, x,
                       fail='per-level clean-up unlinks %s' % unparse(a))
@@ -281,12 +281,12 @@ def c12c(ctx):
         # the level database only looks at (level, timestamp) if it has a DELETE outside its remove_all branch
         inner = ctx.fn('%s:%s.remove_level_tiles_before' % (rel, cname.replace('Level', '')))
         gi = inner.cfg
-        uses = [c for c in _sql_sites(inner) if not gi.guarded(gi.node_for(c), lambda at: at.op is None and unparse(at.expr) == 'remove_all', True)]
+        uses = [c for c in _sql_sites(inner) if not gi.guarded(gi.node_for(c), lambda at: at.op is None and same(at.expr, 'remove_all'), True)]
         if not uses:
             ctx.ok('%s.remove_level_tiles_before:delegates' % cname, 'the level database has no timestamp-based removal: the '
                    'delegated call without remove_all is a no-op whatever its arguments', fn)
             continue
-        ok = bool(dl) and all(unparse(x.args[0]) == 'level' and len(x.args) > 1 and unparse(x.args[1]) == 'timestamp' for x in dl)
+        ok = bool(dl) and all(same(x.args[0], 'level') and len(x.args) > 1 and same(x.args[1], 'timestamp') for x in dl)
         ctx.check(ok, '%s.remove_level_tiles_before:delegates' % cname, 'the timestamp form delegates (level, timestamp) to the level database', fn)
 
 
@@ -299,7 +299,7 @@ def c12d(ctx):
         if not sites:
             ctx.bad('cleanup:%s' % callee, '%s is never called' % callee, fn)
         for n, x in sites:
-            ok = g.guarded(n, lambda at: at.op is None and unparse(at.expr) == 'task.complete_extent', True)
+            ok = g.guarded(n, lambda at: at.op is None and same(at.expr, 'task.complete_extent'), True)
             ctx.check(ok, 'cleanup:%s-only-complete-extent' % callee,
                       '%s (whole-level removal) only runs for tasks that cover the complete extent' % callee, fn, x,
                       fail='%s can run for a task with a partial coverage: tiles outside the coverage are removed' % callee)
@@ -310,7 +310,7 @@ def c12d(ctx):
     # abstract run over remove_all: the expiry threshold is set iff not remove_all, and the walker's handle_all is remove_all
     def ev(st, truth):
         if isinstance(st, ast.Assign) and unparse(st.targets[0]) == 'task.tile_manager._expire_timestamp':
-            return 'expire' if unparse(st.value) == 'task.remove_timestamp' else 'expire-other'
+            return 'expire' if same(st.value, 'task.remove_timestamp') else 'expire-other'
         w = [x for x in ast.walk(st) if is_call(x, 'TileWalker')] if isinstance(st, (ast.Assign, ast.Expr)) else []
         if w:
             ha = keyword(w[0], 'handle_all')
@@ -332,7 +332,7 @@ def c12d(ctx):
     ctx.check(ok, 'tilewalker_cleanup:walker-args', 'TileWalker(handle_stale=True, handle_all=<remove_all>, work_on_metatiles=False)', tc)
     ctx.check(ok2, 'tilewalker_cleanup:handle-all-iff-remove-all', 'handle_all is True only for remove_all', tc)
     pool = [x for x in tc.walk() if is_call(x, 'TileWorkerPool')]
-    ok = bool(pool) and len(pool[0].args) > 1 and unparse(pool[0].args[1]) == 'TileCleanupWorker'
+    ok = bool(pool) and len(pool[0].args) > 1 and same(pool[0].args[1], 'TileCleanupWorker')
     ctx.check(ok, 'tilewalker_cleanup:worker', 'the worker is TileCleanupWorker', tc)
     wk = ctx.fn('mapproxy/seed/seeder.py:TileCleanupWorker.work_loop')
     ok = any(is_call(x, 'remove_tile_coords') for x in wk.walk())
